@@ -1543,7 +1543,8 @@ class Console:
                         rule = style.get_html_style(_theme)
                         text = f'<span style="{rule}">{text}</span>' if rule else text
                         if style.link:
-                            text = f'<a href="{style.link}">{text}</a>'
+                            href = escape(style.link).replace('"', "&quot;")
+                            text = f'<a href="{href}">{text}</a>'
                     append(text)
             else:
                 styles: Dict[str, int] = {}
@@ -1557,7 +1558,8 @@ class Console:
                             style_number = styles.setdefault(rule, len(styles) + 1)
                             text = f'<span class="r{style_number}">{text}</span>'
                         if style.link:
-                            text = f'<a href="{style.link}">{text}</a>'
+                            href = escape(style.link).replace('"', "&quot;")
+                            text = f'<a href="{href}">{text}</a>'
                     append(text)
                 stylesheet_rules: List[str] = []
                 stylesheet_append = stylesheet_rules.append
